@@ -210,10 +210,20 @@ Definition oN := Some ANone.
 Definition oR := Some ARaise.
 Definition oT0 := Some (ACats []).
 Definition oG0 := Some (AReg None None []).
-Definition case := (Z * list string * list cstep)%type.
+(* t0, universe, ORDER in which the query set is put after every step (indices into [queries U]; [] = the
+   listed order), steps.  The order matters: a lookup on an MDQ entity that is not cached fetches it. *)
+Definition case := (Z * list string * list nat * list cstep)%type.
+Definition c_t0 (c : case) : Z := fst (fst (fst c)).
+Definition c_uni (c : case) : list string := snd (fst (fst c)).
+Definition c_order (c : case) : list nat := snd (fst c).
+Definition ordered (U : list string) (order : list nat) : list query :=
+  match order with
+  | [] => queries U
+  | _ => map (fun i => nth i (queries U) QKeys) order
+  end.
 
-Definition expand (U : list string) (steps : list cstep) : list op :=
-  flat_map (fun s => fst (fst s) :: map OQuery (queries U)) steps.
+Definition expand (U : list string) (order : list nat) (steps : list cstep) : list op :=
+  flat_map (fun s => fst (fst s) :: map OQuery (ordered U order)) steps.
 
 Fixpoint resolve (prev : list answer) (qs : list (option answer)) : list answer :=
   match qs with
@@ -229,12 +239,12 @@ Fixpoint unfold_obs (prev : list answer) (steps : list cstep) : list answer :=
   end.
 
 Definition observed (c : case) : list answer := unfold_obs [] (snd c).
-Definition history (c : case) : list op := expand (snd (fst c)) (snd c).
-Definition model_out (c : case) : list answer := run cur (init (fst (fst c))) (history c).
+Definition history (c : case) : list op := expand (c_uni c) (c_order c) (snd c).
+Definition model_out (c : case) : list answer := run cur (init (c_t0 c)) (history c).
 
 Definition agrees (c : case) : bool := answers_eqb (model_out c) (observed c).
 (* the property, evaluated on what the IMPLEMENTATION answered *)
-Definition verdict (c : case) : nat := let w := rinit (fst (fst c)) in check w [r_srv w] (history c) (observed c).
+Definition verdict (c : case) : nat := let w := rinit (c_t0 c) in check w [r_srv w] (history c) (observed c).
 Definition holds (c : case) : bool := Nat.eqb (verdict c) 0.
 (* finding classes (first failing position of the history):
      1 service() fell through to a later source although an earlier one has the entity
@@ -305,5 +315,5 @@ Fixpoint spec_diff (i : nat) (w : rworld) (h : list op) (obs : list answer) : op
       end
   end.
 (* (position, query, implementation's answer, reference answer) *)
-Definition where_spec (c : case) := spec_diff 0 (rinit (fst (fst c))) (history c) (observed c).
+Definition where_spec (c : case) := spec_diff 0 (rinit (c_t0 c)) (history c) (observed c).
 Definition where_ (c : case) := (verdict c, match where_spec c with Some (i, q, _, _) => Some (i, q) | None => None end, where_model c).
